@@ -6,7 +6,7 @@ From Utp Require Import Base.Prelude Wire.SeqNr Wire.Header Rtt.Rtte Rtt.Rtte_Pr
   Conn.Recovery Conn.Msg Conn.VSockRec Conn.VSock Conn.VSockRun Conn.VObs Conn.C10_Pred Conn.C02_Pred
   Conn.C02_Pred2 Conn.VSock_LemmasTx Conn.VSock_Lemmas Conn.VSock_LemmasStep Conn.VSock_LemmasReach
   Conn.VSock_LemmasTimers Conn.VSock_LemmasPipe Conn.C02_Step
-  Conn.C02_SegLemmas2 Conn.C02_Lemmas2 Conn.C02_Stall2.
+  Conn.C02_SegLemmas2 Conn.C02_Lemmas2 Conn.C02_Stall2 Conn.C02_Fin2.
 
 Section WithCC.
 Context {CC : Type} (cci : cc_iface CC).
@@ -214,6 +214,59 @@ Proof.
   - eapply rm_vsock_new; exact H0.
 Qed.
 
+(* ================================================================== c02_rto_armed, FIN half *)
+Lemma fin_guard_K0 : forall (s : vsock) sc,
+  ti s -> fin_alloc_guard (fp_of_vsock cci s) = true -> K0 (VSockRec.set_sends s sc).
+Proof.
+  intros s sc T G. unfold fin_alloc_guard in G.
+  apply andb_true_iff in G. destruct G as [G Gn]. apply andb_true_iff in G. destruct G as [Gl Go].
+  cbn [fp_of_vsock f_state] in Gl.
+  split; [exact T|]. split; [exact Gl|]. split.
+  - intros fin Hf Hl. unfold fin_of in Hf.
+    change (v_state (VSockRec.set_sends s sc)) with (v_state s) in Hf.
+    change (v_last_sent_seq_nr (VSockRec.set_sends s sc)) with (v_last_sent_seq_nr s) in Hl.
+    change (v_t_retransmit (VSockRec.set_sends s sc)) with (v_t_retransmit s).
+    unfold fo_fp, fin_out in Go. cbn [fp_of_vsock f_state f_last_sent_seq_nr f_t_retransmit] in Go.
+    rewrite Hf, Hl, Z.eqb_refl in Go. destruct (v_t_retransmit s); [discriminate|discriminate Go].
+  - intros fin E. left.
+    change (v_state (VSockRec.set_sends s sc)) with (v_state s) in E.
+    change (v_segs (VSockRec.set_sends s sc)) with (v_segs s).
+    unfold fn_fp in Gn. cbn [fp_of_vsock f_state f_snd_una f_segs] in Gn. rewrite E in Gn.
+    apply Z.eqb_eq in Gn. rewrite map_length in Gn. exact Gn.
+Qed.
+
+Theorem c02_rto_armed_fin_g_step : forall cfg (s : vsock) o,
+  ti s -> c02_rto_armed_fin_g cfg (fstep_of cci s o) = true.
+Proof.
+  intros cfg s o T. unfold c02_rto_armed_fin_g. rewrite fstep_of_pre.
+  destruct (fin_alloc_guard (fp_of_vsock cci s)) eqn:G; [|reflexivity].
+  destruct o; try (unfold c02_rto_armed; rewrite fstep_of_event; reflexivity).
+  destruct (poll cci (VSockRec.set_sends s script)) as [s' r] eqn:E.
+  rewrite (fstep_of_poll cci s script s' r E).
+  destruct r; try reflexivity.
+  unfold c02_rto_armed. cbn [fs_event fs_result fs_post].
+  cbn [fp_of_vsock f_transport_pending].
+  destruct (v_transport_pending s') eqn:Tp; [reflexivity|]. cbn [negb andb].
+  destruct (poll_fin_armed cci _ _ (fin_guard_K0 s script T G) E Tp) as [T' F'].
+  rewrite outstanding_split.
+  destruct (data_outstanding (fp_of_vsock cci s')) eqn:Ed; cbn [orb].
+  - apply ti_timer_fp; assumption.
+  - destruct (fin_outstanding (fp_of_vsock cci s')) eqn:Ef; [|reflexivity].
+    unfold fin_outstanding in Ef. cbn [fp_of_vsock f_state f_last_sent_seq_nr f_t_retransmit] in *.
+    destruct (our_fin_if_unacked (v_state s')) as [fin|] eqn:Eo; [|discriminate].
+    apply Z.eqb_eq in Ef. specialize (F' fin Eo Ef). destruct (v_t_retransmit s'); [reflexivity|congruence].
+Qed.
+
+Theorem c02_rto_armed_fin_g_trace : forall cfg mk c (s0 : vsock) ops,
+  vsock_new cci mk c = Some s0 -> forallb (c02_rto_armed_fin_g cfg) (ftrace cci s0 ops) = true.
+Proof.
+  intros cfg mk c s0 ops H0.
+  apply (ftrace_forallb cci ti).
+  - intros s o Hp. apply c02_rto_armed_fin_g_step; exact Hp.
+  - intros s o Hp. apply ti_vstep; exact Hp.
+  - eapply ti_vsock_new; exact H0.
+Qed.
+
 End WithCC.
 
 (* ------------------------------------------------------------------ the guards are met by reachable
@@ -262,6 +315,28 @@ Lemma no_silent_stall_g_nonvacuous :
     forallb (c02_no_silent_stall cfg) (wtrace w cfg ops) = true.
 Proof.
   exists 100, s2_cfg, [VoWrite (repeat 0 (Z.to_nat 528)); VoPoll []].
+  split; [vm_compute; reflexivity|]. split; [repeat constructor|].
+  split; vm_compute; reflexivity.
+Qed.
+
+(* FIN half: 528 bytes sent, both halves dropped (FIN 102 sent behind the data), RTO (data and FIN
+   resent), the data acknowledged, RTO of the FIN alone: at every poll from the third on the guard
+   holds before the poll and our FIN is outstanding after it *)
+Definition fin_half_ops : list vop :=
+  [VoWrite (repeat 0 (Z.to_nat 528)); VoPoll []; VoDropWriter; VoDropReader; VoPoll [];
+   VoSetNow 300000000; VoPoll []; VoDeliver (wmsg ST_STATE 1 101 0); VoPoll [];
+   VoSetNow 950000000; VoPoll []].
+
+Lemma rto_armed_fin_g_nonvacuous :
+  exists w cfg ops,
+    vconfig_ok cfg = true /\ Forall op_msg_ok ops /\
+    existsb (fun st => fin_alloc_guard (fs_pre st) && fin_out (fs_post st) &&
+                       negb (f_transport_pending (fs_post st)) &&
+                       match fs_result st with FrPoll PollPending _ _ _ => true | _ => false end)
+            (wtrace w cfg ops) = true /\
+    forallb (c02_rto_armed cfg) (wtrace w cfg ops) = true.
+Proof.
+  exists 1056, s2_cfg, fin_half_ops.
   split; [vm_compute; reflexivity|]. split; [repeat constructor|].
   split; vm_compute; reflexivity.
 Qed.
